@@ -236,6 +236,9 @@ func immutableGlobal(w *core.World, g *ssa.Global) (bool, string) {
 	case *types.Pointer:
 		n := t.Elem().String()
 		okType = n == "strings.Replacer" || n == "regexp.Regexp"
+	case *types.Map, *types.Slice:
+		// a lookup table: acceptable when nothing in the repository ever writes an element of it
+		okType = !elementsWritten(w, g)
 	}
 	if !okType {
 		return false, "variable of type " + elem.String() + " can carry state between validations"
@@ -483,4 +486,41 @@ func ruleOwnerReadComplete(w *core.World, r *core.Report, rule string) {
 			r.Viol(rule, core.Site(f, "Read#%d covers the whole path list", i), w.InstrPos(c), "the paths that are read do not come from the owner's path list of the index")
 		}
 	}
+}
+
+// elementsWritten: some function stores into an element of the map / slice held by package variable g (m[k] = v,
+// s[i] = v, delete, append-assign), other than the package initialiser that builds the literal.
+func elementsWritten(w *core.World, g *ssa.Global) bool {
+	for _, f := range w.RepoFns {
+		if (f.Name() == "init" || strings.HasPrefix(f.Name(), "init#")) && f.Parent() == nil {
+			continue
+		}
+		for _, b := range f.Blocks {
+			for _, in := range b.Instrs {
+				fromG := func(v ssa.Value) bool {
+					for _, o := range append(core.Origins(v), v) {
+						if u, ok := o.(*ssa.UnOp); ok && u.X == ssa.Value(g) {
+							return true
+						}
+					}
+					return false
+				}
+				switch x := in.(type) {
+				case *ssa.MapUpdate:
+					if fromG(x.Map) {
+						return true
+					}
+				case *ssa.Store:
+					if ia, ok := x.Addr.(*ssa.IndexAddr); ok && fromG(ia.X) {
+						return true
+					}
+				case *ssa.Call:
+					if bi, ok := x.Call.Value.(*ssa.Builtin); ok && (bi.Name() == "delete" || bi.Name() == "clear") && len(x.Call.Args) > 0 && fromG(x.Call.Args[0]) {
+						return true
+					}
+				}
+			}
+		}
+	}
+	return false
 }
